@@ -2,11 +2,19 @@
    Only ExtrOcamlBasic's directives are used (bool, option, list, prod, unit, sumbool
    mapped to OCaml's own types); N, Z, positive and nat stay extracted inductives. *)
 From Coq Require Import ExtrOcamlBasic.
-From VL Require Import Base Json Schema Wire Service Script.
+From VL Require Import Base Json Schema Wire WireSet Service Script.
+From VLG Require Import WireGen SetGen.
 Extraction Language OCaml.
 Separate Extraction
   Base.beq_bytes Json.parse_value Json.parse_doc Json.print Json.norm
   Schema.de_text Schema.de_value Schema.ser
   Wire.decode_request Wire.encode_request Wire.decode_reply Wire.encode_reply
   Service.feed_all Service.spec_out Service.spec_closed Service.handle Service.arun Service.serve
-  Script.script_iface.
+  Script.script_iface
+  Json.utf8_valid Json.obj_insert
+  WireGen.schema_Request WireGen.schema_Reply WireGen.schema_ServiceInfo
+  WireGen.schema_GetInterfaceDescriptionArgs WireGen.schema_GetInterfaceDescriptionReply
+  WireGen.schema_ErrorInterfaceNotFound WireGen.schema_ErrorInvalidParameter
+  WireGen.schema_ErrorMethodNotImplemented WireGen.schema_ErrorMethodNotFound
+  WireSet.set_ser WireSet.set_de_value WireSet.set_de_text WireSet.map_ser WireSet.map_de_value WireSet.map_de_text
+  SetGen.set_visitor_consumes_value.
